@@ -209,7 +209,9 @@ var c03ReqDefects = []c03ReqDefect{
 		}
 	}},
 	{"wrong-http-method", func(_ *mxCall, s *drive.ReqSpec) { s.Method = "DELETE" }},
-	{"unknown-method", func(_ *mxCall, s *drive.ReqSpec) { s.Target = strings.Replace(s.Target, "/verif.v1.Svc/", "/verif.v1.Svc/No", 1) }},
+	{"unknown-method", func(_ *mxCall, s *drive.ReqSpec) {
+		s.Target = strings.Replace(s.Target, "/verif.v1.Svc/", "/verif.v1.Svc/No", 1)
+	}},
 	{"unknown-codec", func(_ *mxCall, s *drive.ReqSpec) {
 		if ct := s.Header.Get("Content-Type"); ct != "" {
 			i := strings.LastIndexAny(ct, "+/")
